@@ -999,8 +999,7 @@ def _inline_new_temps(fn, ref_names, params, stats, key):
             # where the substituted body now stands)
             lam = st.value
             a = lam.args
-            if a.vararg or a.kwarg or a.kwonlyargs or a.defaults or a.posonlyargs:
-                continue
+            only_called = not (a.vararg or a.kwarg or a.kwonlyargs or a.defaults or a.posonlyargs)
             params_ = [x.arg for x in a.args]
             pm_ = {}
             for n in ast.walk(fn):
@@ -1009,22 +1008,24 @@ def _inline_new_temps(fn, ref_names, params, stats, key):
             loads_ = [n for n in ast.walk(fn) if isinstance(n, ast.Name) and n.id == v and isinstance(n.ctx, ast.Load)]
             calls_ = [pm_.get(id(n)) for n in loads_]
             if not loads_ or any(not (isinstance(c, ast.Call) and c.func is n and len(c.args) == len(params_) and not c.keywords and all(_simple(x) for x in c.args)) for c, n in zip(calls_, loads_)):
-                continue
+                only_called = False
             if any(order[id(n)] < order[id(st)] for n in loads_):
-                continue
+                only_called = False
 
-            class B(ast.NodeTransformer):
-                def visit_Call(self, c):
-                    self.generic_visit(c)
-                    if isinstance(c.func, ast.Name) and c.func.id == v and len(c.args) == len(params_):
-                        return ast.copy_location(_Subst(dict(zip(params_, c.args))).visit(copy.deepcopy(lam.body)), c)
-                    return c
-            for s2 in block[idx + 1:]:
-                B().visit(s2)
-            del block[idx]
-            ast.fix_missing_locations(fn)
-            done += 1
-            continue
+            if only_called:
+                class B(ast.NodeTransformer):
+                    def visit_Call(self, c):
+                        self.generic_visit(c)
+                        if isinstance(c.func, ast.Name) and c.func.id == v and len(c.args) == len(params_):
+                            return ast.copy_location(_Subst(dict(zip(params_, c.args))).visit(copy.deepcopy(lam.body)), c)
+                        return c
+                for s2 in block[idx + 1:]:
+                    B().visit(s2)
+                del block[idx]
+                ast.fix_missing_locations(fn)
+                done += 1
+                continue
+            # otherwise the lambda is handed on as a value: it is an ordinary (pure) temporary, handled below
         pos = order[id(st)]
         loads = [n for n in ast.walk(fn) if isinstance(n, ast.Name) and n.id == v and isinstance(n.ctx, ast.Load)]
         # the temporary must be a NAME FOR A VALUE: never the handle of an object that is modified through it ...
@@ -1239,10 +1240,27 @@ def drop_default_arguments(trees):
                     call.args.pop()
 
 
+def module_defs_to_lambdas(trees):
+    """a module-level name that the reference binds to a lambda and the current tree defines with `def` (single conditional return
+    structure) is the same function value"""
+    known = reference().get('module_names', {})
+    reff = reference().get('functions', {})
+    for mod, tree in trees.items():
+        for i, n in enumerate(tree.body):
+            if isinstance(n, ast.FunctionDef) and n.name in known.get(mod, ()) and ('%s:%s' % (mod, n.name)) not in reff and not n.decorator_list:
+                e = _exprify(_body_of(n))
+                if e is not None:
+                    for a in n.args.args + n.args.kwonlyargs:
+                        a.annotation = None
+                    tree.body[i] = ast.fix_missing_locations(ast.copy_location(ast.Assign(targets=[ast.copy_location(ast.Name(id=n.name, ctx=ast.Store()), n)],
+                                                                                        value=ast.copy_location(ast.Lambda(args=n.args, body=e), n)), n))
+
+
 def normalise_repo(trees, use_reference=True, stats=None):
     collect_sigs(trees)
     strip_annotations_and_super(trees)
     if use_reference and reference().get('functions'):
+        module_defs_to_lambdas(trees)
         inline_new_constants(trees, stats)
         inline_new_helpers(trees, reference()['functions'], stats)
     pass  # drop_default_arguments(trees): tried and not adopted (ties call-site checks to parameter defaults)
@@ -1388,7 +1406,7 @@ def _pure(e):
             nm = f.id if isinstance(f, ast.Name) else (f.attr if isinstance(f, ast.Attribute) else None)
             if nm not in PURE_CALLS and nm not in ('lower', 'upper', 'keys', 'values', 'items', 'get', 'startswith', 'endswith'):
                 return False
-        elif isinstance(n, (ast.Lambda, ast.Yield, ast.YieldFrom, ast.Await, ast.NamedExpr)):
+        elif isinstance(n, (ast.Yield, ast.YieldFrom, ast.Await, ast.NamedExpr)):
             return False
     return True
 
